@@ -80,7 +80,8 @@ def oracle(log):
         elif lhs[0] in ('dn', 'da') and rhs[:1] == ['true']:
             net -= handles.get('h' + lhs[1], 0)
         elif lhs[0] == 'ma' and len(lhs) > 1 and lhs[1] == 'used':
-            expect_assign.append(1)
+            if 'held=0' not in rhs:       # the allocation made in the assigned-to object can itself be refused (tight blocks)
+                expect_assign.append(1)
         elif lhs[0] == 'destroy':
             am = ln.split('amounts=')[1].split()[0] if 'amounts=' in ln else '[]'
             observed = [int(x) for x in am.strip('[]').split(',') if x]
